@@ -132,7 +132,7 @@ func (c *Ctx) Violation(sig, text string, witness any) {
 		return
 	}
 	b, _ := json.Marshal(witness)
-	c.send(&msg{T: "v", Idx: c.curIdx, Sig: sig, Msg: text, Wit: b})
+	c.send(&msg{T: "v", Idx: c.curIdx, Sig: strings.ReplaceAll(sig, " ", "_"), Msg: text, Wit: b})
 }
 
 func (c *Ctx) flush() {
